@@ -1,6 +1,8 @@
 package analysis
 
 import (
+	"fmt"
+
 	"github.com/go-openapi/spec"
 	"github.com/go-openapi/strfmt"
 )
@@ -129,7 +131,7 @@ func (a *AnalyzedSchema) inferFromRef() error {
 
 		sch := new(spec.Schema)
 		sch.Ref = a.schema.Ref
-		err := spec.ExpandSchema(sch, a.root, nil)
+		err := expandSchema(sch, a.root)
 		if err != nil {
 			return err
 		}
@@ -150,6 +152,20 @@ func (a *AnalyzedSchema) inferFromRef() error {
 	}
 
 	return nil
+}
+
+// expandSchema expands a schema against its root document.
+//
+// The expander of the spec package panics when a $ref, possibly nested in the target of another one, resolves as a
+// nil pointer (an optional part which is absent from the document): this is reported as an unresolved $ref.
+func expandSchema(sch *spec.Schema, root any) (err error) {
+	defer func() {
+		if r := recover(); r != nil {
+			err = ErrResolveSchema(fmt.Errorf("%v: %w", r, ErrNoSchema))
+		}
+	}()
+
+	return spec.ExpandSchema(sch, root, nil)
 }
 
 func isVisitedRef(visited []string, ref string) bool {
